@@ -32,6 +32,11 @@ T={
  'C11-b':('C11','EventLoop::next_request (v4): pending.pop_front() before the throttle sleep (skipped when the throttle is zero)','non-zero pending_throttle, requests carried over a failure, session resumed, and another select! arm (a broker packet, the keep-alive timer) fires during the throttle sleep: the popped request is dropped and never retransmitted'),
  'C16-b':('C16','handle_last_will: last_wills.get(..).cloned() instead of remove(..)','connection 1 of a client id registers a will and ends without DISCONNECT (will fires); connection 2 of the same id registers no will and also ends without DISCONNECT: the stale will is published again'),
  'C18-b':('C18','v5 EventLoop::poll: connection_timeout wraps only network_connect, not the CONNECT/CONNACK exchange','MQTT 5 client, transport connects, the broker never answers the CONNECT (or answers late): poll() stays pending for ever instead of reporting a timeout'),
+ 'C13-b':('C13','CommitLog::readv: next segment looked up as segments[cursor.0] instead of segments[idx + 1]','retention has discarded at least one segment (head > 0) and one readv starts in a sealed segment and asks for more entries than remain in it: out-of-bounds index / wrong segment'),
+ 'C14-b':('C14','Scheduler::remove: self.readyqueue.remove(id) added (VecDeque::remove takes a position)','connection k is closed by the router while the ready queue holds more than k ids and index k belongs to another connection: that connection is dequeued while its tracker says Ready and is never scheduled again'),
+ 'C15-b':('C15','DataLog::insert_to_retained_publishes: entry(topic).or_insert_with(..) instead of insert','a second retained, non-empty publish on a topic that already has a retained message (no clearing in between): new subscribers get the oldest retained message'),
+ 'C19-b':('C19','handle_new_connection: max_connections check moved before the client-id takeover','the router holds exactly max_connections live connections and a CONNECT reuses the client id of one of them: refused instead of replacing the old connection'),
+ 'C20-b':('C20','append_to_commitlog: the publisher topic alias is read by copy instead of taken out of the stored properties','MQTT 5 publisher uses a topic alias on a QoS 0/1 publish; an MQTT 5 subscriber for which the broker sets no alias of its own (no alias maximum, or aliases exhausted) receives the publisher alias: beyond its maximum, or re-mapping its table'),
  'C19-a':('C19','handle_auth: unknown user compared against the empty string','listener with a static credentials table (no callback), CONNECT with a user name not in the table and an empty/absent password: admitted'),
  'C20-a':('C20','forward_device_data: properties.insert(default) when adding the subscription identifier','MQTT 5 subscriber that subscribed with a subscription identifier receives a publish that carries properties of its own: all publisher properties are dropped'),
 }
